@@ -859,6 +859,7 @@ func (b *Bucket) write() []byte {
 // rebalance attempts to balance all nodes.
 func (b *Bucket) rebalance() {
 	for _, n := range b.nodes {
+		verifRebalanceVisit(b, n)
 		n.rebalance()
 	}
 	for _, child := range b.buckets {
